@@ -87,6 +87,13 @@ CHECKS = {
                      "requires that no older detail is delivered after a newer one and that the last notification equals "
                      "PairingDetailForSki at quiescence. Runs between two real hubs are added by the two-hub engine.", ref="6.C18",
                 note="trusted: TLC; handshake state sequences come from the model, not from a real peer"),
+    "C19": dict(engine="avahi", technique="TLA+ model checking of Avahi (TLC) + environment scripts on the real AvahiProvider over a fake daemon, TLC monitor",
+                text="Avahi.tla models announce bookkeeping, the Disconnected callback, the reconnect loops and Shutdown against a daemon "
+                     "that goes away and comes back; TLC checks 'published = requested once settled', 'nothing after shutdown' and "
+                     "'shutdown is final' for all interleavings within the bounds. Simulated scripts run on the real provider over a fake "
+                     "avahi.ServerInterface with the real 1 s retry sleeps; the monitor judges the daemon-side state, calls after Shutdown "
+                     "returned, hangs / panics and that a service resolved afterwards is reported.", ref="6.C19",
+                note="trusted: TLC; the daemon is a fake behind avahi.ServerInterface; go-avahi's own dbus layer is not exercised"),
     "C14": dict(engine="timer", technique="TLA+ refinement Timer => AbsTimer (TLC) + all arm/stop scripts on real timers, timed-AbsTimer TLC monitor",
                 text="Timer.tla models setHandshakeTimer/stopHandshakeTimer at goroutine granularity and TLC checks that it refines "
                      "AbsTimer (the timer ShipSme assumes); TimerGen enumerates every arm/stop/re-arm/expire script, which is run on real "
@@ -105,7 +112,6 @@ NOT_YET = {
     "C05": "two-hub engine / Hub2 not built yet; nothing is claimed",
     "C07": "EebusJson module not built yet; nothing is claimed",
     "C16": "MdnsText not built yet; nothing is claimed",
-    "C19": "Avahi not built yet; nothing is claimed",
 }
 
 
@@ -148,6 +154,8 @@ def main():
                  kind_free_text="TLC model checking + replay of TLC behaviours into a real hub.Hub (twice: canonical / re-spelled SKIs) + TLC monitor"),
             dict(name="mdns", path="spec/MdnsMgr.tla spec/MdnsOracle.tla spec/MonMdns.tla harness/cmd/mdnsmgr tools/check_mdns.py",
                  serves_properties=["C17"], kind_free_text="TLC model checking + resolver event sequences on the real MdnsManager + TLC monitor"),
+            dict(name="avahi", path="spec/Avahi.tla spec/MonAvahi.tla harness/cmd/avahi tools/check_avahi.py",
+                 serves_properties=["C19"], kind_free_text="TLC model checking + scripted runs of the real AvahiProvider on a fake daemon + TLC monitor"),
             dict(name="timer", path="spec/Timer.tla spec/AbsTimer.tla spec/TimerGen.tla spec/MonTimer.tla harness/cmd/timer tools/check_timer.py",
                  serves_properties=["C14"], kind_free_text="TLC refinement check + script enumeration on real timers + TLC monitor pass"),
         ],
